@@ -223,6 +223,11 @@ inline void buildDevs(const Seed &seed, SeedInfo &si)
                     Dev d{A_ADD, 'a'}; d.node = e->id; d.attr = nn; d.val = std::string(nn) == "xmlns:x" ? "http://example.com/foreign" : "x1"; push(d);
                 }
             }
+            // a second prefix bound to a namespace the pipeline manipulates (declarations are added, removed and rewritten by the
+            // 1.x transformation and by the math clean-up): every element, math included; lands next to the element's own declarations
+            for (auto *ns : {NS20, NS10, NS11, NSMATH}) {
+                Dev d{A_ADD, 'a'}; d.node = e->id; d.attr = "xmlns:dvp"; d.val = ns; d.reduced = std::string(ns) == NS20 && (el == "math" || el == "cn" || isRoot); push(d);
+            }
             // ---------------- (a) text content of token elements
             if (math && (el == "ci" || el == "cn")) {
                 int ord = 0;
